@@ -737,7 +737,12 @@ func (c *cutter) doHuffman(isFirstBlock bool, lLengths []uint32, dLengths []uint
 			decodedLen += length
 
 		} else {
-			// It's the end-of-block.
+			// It's the end-of-block. Like any other symbol, it has to fit in
+			// the maxEncodedLen budget. After a checkpoint, it always does. As
+			// the block's first symbol, it might not.
+			if (8*uint64(c.bits.index) - uint64(c.bits.nBits)) > (8 * uint64(c.maxEncodedLen)) {
+				break
+			}
 			return nil
 		}
 
